@@ -131,7 +131,11 @@ type field struct {
 	AutoTag string // "autoUpdateTime", "autoCreateTime:milli", ... ; "" = tracked by name (or not tracked)
 	ColTag  bool   // carries an explicit column: tag
 	Default cell   // DEFAULT of the column in the DDL (nil = none, i.e. NULL)
+	// DBDefault: the default is also declared to gorm, as an SQL expression gorm cannot turn into a Go
+	// value (tag default:(expr)); the DDL uses the same expression, which evaluates to Default
+	DBDefault string
 	PK      bool
+	NoAuto  bool // key member declared autoIncrement:false (composite keys)
 }
 
 // perms is the predictor's reading of the permission tag (gorm documentation,
@@ -196,11 +200,17 @@ func (f field) gormTag() string {
 	if f.PK {
 		parts = append(parts, "primaryKey")
 	}
+	if f.NoAuto {
+		parts = append(parts, "autoIncrement:false")
+	}
 	if f.ColTag {
 		parts = append(parts, "column:"+f.Col)
 	}
 	if f.AutoTag != "" {
 		parts = append(parts, f.AutoTag)
+	}
+	if f.DBDefault != "" {
+		parts = append(parts, "default:"+f.DBDefault)
 	}
 	if f.Perm != "" {
 		parts = append(parts, f.Perm)
@@ -222,11 +232,46 @@ func (f field) String() string {
 type model struct {
 	Fields []field
 	Typ    reflect.Type
-	IDs    []int64 // keys of the pre-filled rows, ascending
+	NK     int      // number of primary key members: Fields[0] (ID) and, when 2, Fields[1] (Rev)
+	Rows   []rowKey // the pre-filled rows, ascending
+	IDs    []int64  // distinct values of the first key member, ascending
 	NoRet  bool    // the handle's dialector registers the callbacks without RETURNING
 }
 
 const tableName = "c10_items"
+
+// rowKey identifies a pre-filled row; N seeds its sentinel cells.
+type rowKey struct {
+	ID  int64
+	Rev cell // nil for a single-member key
+	N   int64
+}
+
+func (k rowKey) String() string {
+	if k.Rev == nil {
+		return fmt.Sprintf("%d", k.ID)
+	}
+	return fmt.Sprintf("(%d,%s)", k.ID, cellStr(k.Rev))
+}
+
+// rkey is the identity of a table row inside a snapshot: its key members rendered.
+type rkey string
+
+func (m *model) keyOf(id cell, rev cell) rkey {
+	if m.NK == 1 {
+		return rkey(cellStr(id))
+	}
+	return rkey(cellStr(id) + "," + cellStr(rev))
+}
+
+func (m *model) keyOfRow(row []cell) rkey {
+	if m.NK == 1 {
+		return m.keyOf(row[0], nil)
+	}
+	return m.keyOf(row[0], row[1])
+}
+
+func isZeroCell(c cell) bool { return c == nil || c == int64(0) || c == "" }
 
 func (m *model) build() {
 	sf := make([]reflect.StructField, len(m.Fields))
@@ -248,7 +293,7 @@ func (m *model) String() string {
 		}
 		b.WriteString(f.String())
 	}
-	fmt.Fprintf(&b, "} rows=%v", m.IDs)
+	fmt.Fprintf(&b, "} rows=%v", m.Rows)
 	if m.NoRet {
 		b.WriteString(" no-returning")
 	}
@@ -279,10 +324,12 @@ func (m *model) ddl() string {
 			b.WriteString(", ")
 		}
 		fmt.Fprintf(&b, "`%s` %s", f.Col, f.sqlType())
-		if f.PK {
+		if f.PK && m.NK == 1 {
 			b.WriteString(" PRIMARY KEY")
 		}
-		if f.Default != nil {
+		if f.DBDefault != "" {
+			b.WriteString(" DEFAULT " + f.DBDefault)
+		} else if f.Default != nil {
 			switch d := f.Default.(type) {
 			case int64:
 				fmt.Fprintf(&b, " DEFAULT %d", d)
@@ -292,6 +339,9 @@ func (m *model) ddl() string {
 				fmt.Fprintf(&b, " DEFAULT '%s'", d)
 			}
 		}
+	}
+	if m.NK == 2 {
+		fmt.Fprintf(&b, ", PRIMARY KEY (`%s`, `%s`)", m.Fields[0].Col, m.Fields[1].Col)
 	}
 	b.WriteString(")")
 	return b.String()
@@ -305,11 +355,15 @@ var (
 )
 
 // sentinel is the unique pre-filled content of the cell (row id, column ci).
-func (m *model) sentinel(id int64, ci int) cell {
+func (m *model) sentinel(rk rowKey, ci int) cell {
 	f := m.Fields[ci]
 	if f.PK {
-		return id
+		if ci == 0 {
+			return rk.ID
+		}
+		return rk.Rev
 	}
+	id := rk.N
 	n := id*1000 + int64(ci)*10
 	switch f.Kind {
 	case kInt:
@@ -370,20 +424,28 @@ func zeroCell(f field) cell {
 
 // table is a snapshot: rows keyed by primary key, cells in Fields order.
 type table struct {
-	rows map[int64][]cell
+	rows map[rkey][]cell
 }
 
-func (t *table) ids() []int64 {
-	out := make([]int64, 0, len(t.rows))
+func (t *table) ids() []rkey {
+	out := make([]rkey, 0, len(t.rows))
 	for id := range t.rows {
 		out = append(out, id)
 	}
-	sort.Slice(out, func(i, j int) bool { return out[i] < out[j] })
+	sort.Slice(out, func(i, j int) bool {
+		a, b := t.rows[out[i]], t.rows[out[j]]
+		x, _ := a[0].(int64)
+		y, _ := b[0].(int64)
+		if x != y {
+			return x < y
+		}
+		return out[i] < out[j]
+	})
 	return out
 }
 
 func (t *table) clone() *table {
-	c := &table{rows: map[int64][]cell{}}
+	c := &table{rows: map[rkey][]cell{}}
 	for id, r := range t.rows {
 		c.rows[id] = append([]cell(nil), r...)
 	}
@@ -392,8 +454,8 @@ func (t *table) clone() *table {
 
 func (t *table) maxID() int64 {
 	var mx int64
-	for id := range t.rows {
-		if id > mx {
+	for _, r := range t.rows {
+		if id, _ := r[0].(int64); id > mx {
 			mx = id
 		}
 	}
@@ -429,7 +491,7 @@ func openTable(m *model) *testdb.DB {
 		marks[i] = "?"
 	}
 	q := fmt.Sprintf("INSERT INTO %s (%s) VALUES (%s)", tableName, strings.Join(cols, ","), strings.Join(marks, ","))
-	for _, id := range m.IDs {
+	for _, id := range m.Rows {
 		args := make([]interface{}, len(m.Fields))
 		for ci := range m.Fields {
 			args[ci] = m.sentinel(id, ci)
@@ -450,12 +512,12 @@ func snapshot(d *testdb.DB, m *model) *table {
 	}
 	d.Rec.Pause()
 	defer d.Rec.Resume()
-	rows, err := d.SQL.Query(fmt.Sprintf("SELECT %s FROM %s ORDER BY 1", strings.Join(cols, ","), tableName))
+	rows, err := d.SQL.Query(fmt.Sprintf("SELECT %s FROM %s ORDER BY rowid", strings.Join(cols, ","), tableName))
 	if err != nil {
 		panic("harness: snapshot: " + err.Error())
 	}
 	defer rows.Close()
-	t := &table{rows: map[int64][]cell{}}
+	t := &table{rows: map[rkey][]cell{}}
 	for rows.Next() {
 		vals := make([]interface{}, len(cols))
 		ptrs := make([]interface{}, len(cols))
@@ -469,10 +531,10 @@ func snapshot(d *testdb.DB, m *model) *table {
 		for i, v := range vals {
 			r[i] = norm(v)
 		}
-		id, ok := r[0].(int64)
-		if !ok {
+		id := m.keyOfRow(r)
+		if _, dup := t.rows[id]; dup {
 			// a write that destroyed the key: keep the row under an impossible key so the diff shows it
-			id = -1 - int64(len(t.rows))
+			id = rkey(fmt.Sprintf("%s#%d", id, len(t.rows)))
 		}
 		t.rows[id] = r
 	}
@@ -485,24 +547,24 @@ func snapshot(d *testdb.DB, m *model) *table {
 // diff lists the cells in which got differs from want (anyCell matches everything).
 func diff(m *model, want, got *table) []string {
 	var out []string
-	seen := map[int64]bool{}
+	seen := map[rkey]bool{}
 	for _, id := range want.ids() {
 		seen[id] = true
 		g, ok := got.rows[id]
 		if !ok {
-			out = append(out, fmt.Sprintf("row id=%d is missing", id))
+			out = append(out, fmt.Sprintf("row %s is missing", id))
 			continue
 		}
 		for ci := range m.Fields {
 			if !cellEq(want.rows[id][ci], g[ci]) {
-				out = append(out, fmt.Sprintf("row id=%d column %s (field %s): holds %s, predicted %s",
+				out = append(out, fmt.Sprintf("row %s column %s (field %s): holds %s, predicted %s",
 					id, m.Fields[ci].Col, m.Fields[ci].Name, cellStr(g[ci]), cellStr(want.rows[id][ci])))
 			}
 		}
 	}
 	for _, id := range got.ids() {
 		if !seen[id] {
-			out = append(out, fmt.Sprintf("unpredicted row id=%d", id))
+			out = append(out, fmt.Sprintf("unpredicted row %s", id))
 		}
 	}
 	return out
